@@ -64,6 +64,10 @@ func newC18World(c *sim.Case, n int, storeMode string, timeouts [][2]int, discov
 	full := &configv1.Config{}
 	mr, _ := sim.Redis()
 	byName := map[string]*sim.IdP{}
+	sameNames := sim.Weighted(c, "chain-names-equal", 3, 1) == 1
+	if sameNames {
+		c.Class("chains:equal-names")
+	}
 	c18Front := fmt.Sprintf("login-%d.multi-tenant.test", atomic.AddInt64(&c18Fronts, 1))
 	if disc {
 		w.stops = append(w.stops, func() { sim.UnregisterHost(c18Front) })
@@ -114,7 +118,11 @@ func newC18World(c *sim.Case, n int, storeMode string, timeouts [][2]int, discov
 		if strings.HasPrefix(f.store, "redis-db") {
 			f.cfg.RedisSessionStoreConfig = &oidcv1.RedisConfig{ServerUri: fmt.Sprintf("redis://%s/%d", mr.Addr(), i)}
 		}
-		full.Chains = append(full.Chains, &configv1.FilterChain{Name: f.name,
+		chainName := f.name
+		if sameNames {
+			chainName = "oidc" // chain names are labels, nothing requires them to differ
+		}
+		full.Chains = append(full.Chains, &configv1.FilterChain{Name: chainName,
 			Match:   &configv1.Match{Header: "x-tenant", Criteria: &configv1.Match_Equality{Equality: f.name}},
 			Filters: []*configv1.Filter{{Type: &configv1.Filter_Oidc{Oidc: f.cfg}}}})
 		w.fs = append(w.fs, f)
